@@ -6,6 +6,7 @@ import os
 from hypothesis import strategies as st
 
 import buckets
+import fsnap
 import gem
 import harness
 import mutate
@@ -118,9 +119,11 @@ def has_same_dir_reference(scan):
     return False
 
 
-def check_round(root, o, what, classes, trigger=frozenset()):
+def check_round(root, o, what, classes, trigger=frozenset(),
+                rewritten=None):
     """Oracle after a completed update+save."""
-    sc = refscan.scan(root, 'Manifest', o['target'], o['hashes'])
+    sc = refscan.scan(root, 'Manifest', o['target'], o['hashes'],
+                      rewritten=rewritten)
     if sc.problems:
         kinds = sorted({k for k, p, t in sc.problems})
         sig = 'scan:' + '+'.join(kinds)
@@ -140,11 +143,21 @@ def check_round(root, o, what, classes, trigger=frozenset()):
             f'{what}: Manifests on disk do not describe the tree: '
             f'{sc.problems[:6]!r}', sig=sig, classes=classes)
     oc = gem.verify_lib(root, o['target'])
+    if (oc.kind == 'mismatch' and sc.untouched_stale
+            and os.path.normpath(oc.path) in sc.untouched_stale):
+        # the chain above the updated sub-directory was broken before and
+        # the update (rightly) did not bless it
+        classes.append('stale-chain-above-left-alone')
+        return None
     if oc.kind != 'return' or oc.value is not True:
+        sig = 'verify-after-update:' + oc.kind
+        if oc.kind == 'mismatch' and os.path.normpath(oc.path) in trigger:
+            # the stale duplicate left behind by the known defect (here in a
+            # place the scan does not look at, e.g. beneath "IGNORE dir/")
+            sig = KNOWN_DEDUP
         return violation(
             f'{what}: fresh verification of {o["target"]!r} fails: '
-            f'{oc.describe()}', sig='verify-after-update:' + oc.kind,
-            classes=classes)
+            f'{oc.describe()}', sig=sig, classes=classes)
     return None
 
 
@@ -163,6 +176,7 @@ def run_case(desc):
                 break
             create = (state['mode'] == 'none' and i == 0)
             trigger = dedup_trigger_paths(root)
+            snap0 = fsnap.snapshot(root)
             if desc.get('scandir'):
                 with shim.ScandirOrder(desc['scandir']):
                     oc = updgen.run_update(root, o, create=create)
@@ -184,7 +198,9 @@ def run_case(desc):
                 classes.append('subdir-update')
             if o['watermark'] is not None:
                 classes.append('compress-option')
-            v = check_round(root, o, what, classes, trigger)
+            changed = set(fsnap.changed_paths(fsnap.diff(
+                snap0, fsnap.snapshot(root))))
+            v = check_round(root, o, what, classes, trigger, changed)
             if v is not None:
                 return v
         interesting = any(t in classes for t in (
